@@ -389,26 +389,30 @@ fn judge_step_period(x: &[f64], lv: &[f64; 16], d: f64) -> Result<usize, String>
     let rs = runs(&cls, 8);
     // boundaries between consecutive plateaus of different level, taken only where the gap between
     // them is a short filter transition
-    let mut b: Vec<f64> = vec![];
+    // (position estimate, uncertainty): the level change lies somewhere inside the transition
+    // between the two plateaus, whose width depends on the levels involved (the lowest levels are
+    // only a few thousandths apart and their plateaus are recognised later)
+    let mut b: Vec<(f64, f64)> = vec![];
     for w in rs.windows(2) {
         if w[0].0 != w[1].0 && w[1].1 - w[0].2 < 40 {
-            b.push((w[0].2 as f64 + w[1].1 as f64) / 2.0);
+            b.push(((w[0].2 as f64 + w[1].1 as f64) / 2.0, (w[1].1 as f64 - w[0].2 as f64) / 2.0 + 0.5));
         }
     }
     if b.len() < 6 {
         return Ok(0);
     }
-    let first = b[0];
+    let (first, u_first) = b[0];
     let mut used = 0;
-    for t in b.iter().skip(1) {
+    for (t, u_t) in b.iter().skip(1) {
         let span = t - first;
         if span > 40.0 * d {
             break;
         }
         let k = (span / d).round();
         let err = (span - k * d).abs();
-        // +-1.5 samples on each of the two boundary estimates, plus 0.03 % for rounding inside the chip
-        if k >= 1.0 && err > 3.0 + 0.0003 * span {
+        // the uncertainty of the two boundary estimates (at least +-1.5 samples each), plus 0.03 % for
+        // rounding inside the chip
+        if k >= 1.0 && err > u_first.max(1.5) + u_t.max(1.5) + 0.0003 * span {
             return Err(format!("level changes are not spaced by multiples of 16*EP/f_clk = {:.3} samples: a span of {:.1} samples is {:.2} samples away from {} steps (period off by {:.3} %)", d, span, err, k, 100.0 * err / span));
         }
         used += 1;
@@ -533,8 +537,16 @@ fn env_unit(ctx: &Ctx, rng: &mut Rng, st: &mut Stats, clock: usize, rate: usize,
 }
 
 // ------------------------------------------------------------------------------------ noise
-fn noise_stream(clock: usize, rate: usize, ch: u8, np_written: u8, n: usize) -> (Vec<f64>, Vec<f64>) {
+/// `prior`: the chip has already been making noise with another period for that many samples when
+/// R6 is rewritten (the running divider may be anywhere, also beyond the new period)
+fn noise_stream(clock: usize, rate: usize, ch: u8, np_written: u8, n: usize, prior: Option<(u8, usize)>) -> (Vec<f64>, Vec<f64>) {
     let mut ay = chip(clock, rate, false, 0);
+    if let Some((p, k)) = prior {
+        ay.write_register(6, p);
+        ay.write_register(8 + ch, 15);
+        ay.write_register(7, 0x3F & !(8 << ch));
+        let _ = gen(&mut ay, k);
+    }
     ay.write_register(6, np_written);
     ay.write_register(8 + ch, 15);
     ay.write_register(7, 0x3F & !(8 << ch));
@@ -555,15 +567,18 @@ fn noise_unit(ctx: &Ctx, rng: &mut Rng, st: &mut Stats, clock: usize, rate: usiz
         let garbage = rng.u8() & 0xE0;
         let qq = q(np);
         let n = ((1500.0 * qq) as usize).clamp(6000, 400_000) + 64;
-        let (l, r) = noise_stream(clock, rate, ch, np | garbage, n);
+        // half of the streams start on a chip that was already running with another noise period
+        let prior = if rng.bool() && np != 0 { Some((*rng.pick(&[31u8, 31, 24, 16, 1, 0]), 40 + rng.below(3000) as usize)) } else { None };
+        let (l, r) = noise_stream(clock, rate, ch, np | garbage, n, prior);
         st.samples += n as u64;
-        let wit = |what: String| jobj! {"monitor"=>"noise","clock"=>clock,"rate"=>rate,"channel"=>ch,"noise_period"=>np,"r6_written"=>np|garbage,"quantum_samples"=>qq,"observed"=>what};
+        let wit = |what: String| jobj! {"monitor"=>"noise","clock"=>clock,"rate"=>rate,"channel"=>ch,"noise_period"=>np,"r6_written"=>np|garbage,"quantum_samples"=>qq,"observed"=>what,
+            "earlier_period_and_samples"=>format!("{:?}", prior)};
         if let Some((i, v)) = all_bounded(&l, &r) {
             ctx.violation("noise-unbounded", &format!("noise NP={}: sample {} = {:e}", np, i, v), wit(format!("{:e}", v)));
             continue;
         }
         if np == 0 {
-            let (l1, _) = noise_stream(clock, rate, ch, 1 | garbage, n);
+            let (l1, _) = noise_stream(clock, rate, ch, 1 | garbage, n, None);
             st.evals += 1;
             if l.iter().zip(l1.iter()).any(|(a, b)| (a - b).abs() > 1e-9) {
                 ctx.violation("noise-period-0-not-1", "noise period 0 does not behave like period 1 (streams differ)", wit("streams differ".into()));
